@@ -166,6 +166,12 @@ def _run(V, work, tier):
     # the prefix programs again with a comment in the gaps BETWEEN THE TOKENS of every form (after a head, after an operand,
     # directly before a closing bracket): also inside spelled-out prefix forms that sit in other forms
     progs_ += [gap_comments(prefix_program(rnd), rnd, rnd.choice([0.15, 0.3, 0.5])) for _ in range(2000 if thorough else 400)]
+    # the MIX family (gen/mix.py) - every operator, macros with templates, packages, threading forms, nested source texts in
+    # strings - plain and with gap comments
+    import mix
+    for _ in range(300 if thorough else 60):
+        t = P.src(mix.mix_program(rnd, depth=rnd.choice([3, 4])))
+        progs_ += [t, gap_comments(t, rnd, rnd.choice([0.05, 0.15]))]
     files = []
     for f in ktrace.repo_lisp_files():
         try:
